@@ -3,6 +3,16 @@
 import json,sys,shutil,re,subprocess
 status,src,what=sys.argv[1],sys.argv[2],sys.argv[3]
 r=json.load(open(src))
+if status=="known":
+    # a known finding must reproduce on the current, clean /repo tree (never register a replay
+    # produced while a seeded change was applied)
+    import subprocess as sp
+    if sp.run(['git','-C','/repo','status','--porcelain','--untracked-files=no'],capture_output=True).stdout.strip():
+        sys.exit("refusing: /repo has uncommitted changes")
+    sp.run(['./check','--setup'],capture_output=True)
+    rc=sp.run(['./sim/target/release/mcsim','replay',src],capture_output=True).returncode
+    if rc!=1:
+        sys.exit("refusing: %s does not reproduce on the unchanged tree (exit %d)"%(src,rc))
 prop,key=r['property'],r['key']
 slug=re.sub(r'[^A-Za-z0-9.\-]','_',key)
 dst=("known/" if status=="known" else "regress/")+"%s-%s.json"%(prop,slug)
